@@ -1,4 +1,1328 @@
 /-
   C14 — metric gradients are the derivatives of the distances they accompany.
+
+  Model: `Umap.Grad` (Python: `umap/distances.py`, the `*_grad` functions), at `ℝ` with
+  `Umap.realT`.  Vectors are functions `Fin n → ℝ` turned into the model's lists by `List.ofFn`;
+  "coordinate `i` varies" is `Function.update x i t`.  For each metric:
+
+  * `…Grad_fst`, `…Grad_snd`: closed forms of the returned distance / gradient list;
+  * `…Grad_length`: the gradient list has length `n`;
+  * `…_grad_hasDerivAt`: at `eps = 0` the `i`-th gradient entry is the derivative in `x i` of
+    the returned distance, under the differentiability conditions of the metric;
+  * `…_grad_eps`: the exact relation between the regularised (`eps ≠ 0`) gradient and the true one.
 -/
-import UmapModel.Grad
+import UmapProofs.GradLemmas
+import Mathlib.Analysis.SpecialFunctions.Pow.Deriv
+import Mathlib.Analysis.InnerProductSpace.NormPow
+import Mathlib.Analysis.SpecialFunctions.Arcosh
+import Mathlib.Analysis.SpecialFunctions.Log.Deriv
+
+namespace Umap
+namespace C14
+open Metrics
+
+variable {n : ℕ}
+
+/-! ### small algebra helpers -/
+
+theorem two_mul_div_two_mul (a b : ℝ) : 2 * a / (2 * b) = a / b :=
+  mul_div_mul_left a b two_ne_zero
+
+theorem sumsq_ne_zero {x y : Fin n → ℝ} (hne : x ≠ y) :
+    ∑ j, (x j - y j) * (x j - y j) ≠ 0 := by
+  intro h
+  apply hne
+  funext j
+  have := (Finset.sum_eq_zero_iff_of_nonneg
+    (fun j _ => mul_self_nonneg (x j - y j))).1 h j (Finset.mem_univ j)
+  have := mul_self_eq_zero.1 this
+  linarith
+
+theorem sumsq_pos {x y : Fin n → ℝ} (hne : x ≠ y) :
+    0 < ∑ j, (x j - y j) * (x j - y j) :=
+  lt_of_le_of_ne (Finset.sum_nonneg (fun j _ => mul_self_nonneg _)) (Ne.symm (sumsq_ne_zero hne))
+
+/-! ### euclidean -/
+
+theorem euclideanGrad_fst (eps : ℝ) (x y : Fin n → ℝ) :
+    (Grad.euclideanGrad realT eps (List.ofFn x) (List.ofFn y)).1
+      = Real.sqrt (∑ j, (x j - y j) * (x j - y j)) := by
+  simp only [Grad.euclideanGrad, euclidean, diffs_ofFn, map_ofFn', sumL_ofFn, realT]
+
+theorem euclideanGrad_snd (eps : ℝ) (x y : Fin n → ℝ) :
+    (Grad.euclideanGrad realT eps (List.ofFn x) (List.ofFn y)).2
+      = List.ofFn (fun j => (x j - y j) / (eps + Real.sqrt (∑ k, (x k - y k) * (x k - y k)))) := by
+  simp only [Grad.euclideanGrad, euclidean, diffs_ofFn, map_ofFn', sumL_ofFn, realT]
+
+theorem euclideanGrad_length (eps : ℝ) (x y : Fin n → ℝ) :
+    (Grad.euclideanGrad realT eps (List.ofFn x) (List.ofFn y)).2.length = n := by
+  rw [euclideanGrad_snd, List.length_ofFn]
+
+/-- the squared euclidean norm of the difference, as a function of coordinate `i`. -/
+theorem hasDerivAt_sumsq (x y : Fin n → ℝ) (i : Fin n) :
+    HasDerivAt (fun t => ∑ j, (Function.update x i t j - y j) * (Function.update x i t j - y j))
+      (2 * (x i - y i)) (x i) := by
+  apply hasDerivAt_sum_update (fun j s => (s - y j) * (s - y j))
+  have h : HasDerivAt (fun s : ℝ => s - y i) 1 (x i) := (hasDerivAt_id' (x i)).sub_const (y i)
+  exact (h.fun_mul h).congr_deriv (by ring)
+
+/-- C14, euclidean: the gradient is the derivative of the distance wherever `x ≠ y`. -/
+theorem euclidean_grad_hasDerivAt (n : ℕ) (x y : Fin n → ℝ) (i : Fin n) (hne : x ≠ y) :
+    HasDerivAt
+      (fun t => (Grad.euclideanGrad realT 0 (List.ofFn (Function.update x i t)) (List.ofFn y)).1)
+      ((Grad.euclideanGrad realT 0 (List.ofFn x) (List.ofFn y)).2.getD i.val 0) (x i) := by
+  simp_rw [euclideanGrad_fst]
+  rw [euclideanGrad_snd, getD_ofFn]
+  have h2 := (hasDerivAt_sumsq x y i).sqrt
+    (by simp only [Function.update_eq_self]; exact sumsq_ne_zero hne)
+  convert h2 using 1
+  simp only [Function.update_eq_self, zero_add]
+  rw [two_mul_div_two_mul]
+
+example : HasDerivAt
+    (fun t => (Grad.euclideanGrad realT 0 (List.ofFn (Function.update ![1, 2] 0 t))
+      (List.ofFn ![0, 0])).1)
+    ((Grad.euclideanGrad realT 0 (List.ofFn ![1, 2]) (List.ofFn ![0, 0])).2.getD (0 : Fin 2).val 0)
+    ((![1, 2] : Fin 2 → ℝ) 0) :=
+  euclidean_grad_hasDerivAt 2 ![1, 2] ![0, 0] 0
+    (by intro h; have := congrFun h 0; simp at this)
+
+/-- the regularised gradient is the true one shrunk by `d / (eps + d)`. -/
+theorem euclidean_grad_eps (eps : ℝ) (x y : Fin n → ℝ) (i : Fin n) (hne : x ≠ y) :
+    (Grad.euclideanGrad realT eps (List.ofFn x) (List.ofFn y)).2.getD i.val 0
+      = (Grad.euclideanGrad realT 0 (List.ofFn x) (List.ofFn y)).2.getD i.val 0
+        * ((Grad.euclideanGrad realT 0 (List.ofFn x) (List.ofFn y)).1
+            / (eps + (Grad.euclideanGrad realT 0 (List.ofFn x) (List.ofFn y)).1)) := by
+  rw [euclideanGrad_snd, euclideanGrad_snd, euclideanGrad_fst, getD_ofFn, getD_ofFn, zero_add]
+  have hd : Real.sqrt (∑ j, (x j - y j) * (x j - y j)) ≠ 0 :=
+    (Real.sqrt_pos.2 (sumsq_pos hne)).ne'
+  rw [div_mul_div_comm, mul_comm (x i - y i), mul_div_mul_left _ _ hd]
+
+/-! ### manhattan -/
+
+theorem manhattanGrad_fst (x y : Fin n → ℝ) :
+    (Grad.manhattanGrad (List.ofFn x) (List.ofFn y)).1 = ∑ j, |x j - y j| := by
+  simp only [Grad.manhattanGrad, manhattan, diffs_ofFn, map_ofFn', sumL_ofFn, absV_eq_abs]
+
+theorem manhattanGrad_snd (x y : Fin n → ℝ) :
+    (Grad.manhattanGrad (List.ofFn x) (List.ofFn y)).2
+      = List.ofFn (fun j => signV (x j - y j)) := by
+  simp only [Grad.manhattanGrad, diffs_ofFn, map_ofFn']
+
+theorem manhattanGrad_length (x y : Fin n → ℝ) :
+    (Grad.manhattanGrad (List.ofFn x) (List.ofFn y)).2.length = n := by
+  rw [manhattanGrad_snd, List.length_ofFn]
+
+/-- C14, manhattan: differentiable in `x i` wherever `x i ≠ y i`. -/
+theorem manhattan_grad_hasDerivAt (n : ℕ) (x y : Fin n → ℝ) (i : Fin n) (hi : x i ≠ y i) :
+    HasDerivAt
+      (fun t => (Grad.manhattanGrad (List.ofFn (Function.update x i t)) (List.ofFn y)).1)
+      ((Grad.manhattanGrad (List.ofFn x) (List.ofFn y)).2.getD i.val 0) (x i) := by
+  simp_rw [manhattanGrad_fst]
+  rw [manhattanGrad_snd, getD_ofFn]
+  exact hasDerivAt_sum_update (fun j s => |s - y j|) x i _ (hasDerivAt_abs_sub hi)
+
+example : HasDerivAt
+    (fun t => (Grad.manhattanGrad (List.ofFn (Function.update ![1, 0] 0 t))
+      (List.ofFn ![0, 0])).1)
+    ((Grad.manhattanGrad (List.ofFn ![1, 0]) (List.ofFn ![0, 0])).2.getD (0 : Fin 2).val 0)
+    ((![1, 0] : Fin 2 → ℝ) 0) :=
+  manhattan_grad_hasDerivAt 2 ![1, 0] ![0, 0] 0 (by simp)
+
+/-! ### standardised euclidean -/
+
+theorem seuclideanGrad_fst (eps : ℝ) (sigma x y : Fin n → ℝ) :
+    (Grad.seuclideanGrad realT eps (List.ofFn sigma) (List.ofFn x) (List.ofFn y)).1
+      = Real.sqrt (∑ j, (x j - y j) * (x j - y j) / sigma j) := by
+  simp only [Grad.seuclideanGrad, seuclidean, diffs_ofFn, zip_ofFn, map_ofFn', sumL_ofFn, realT]
+
+theorem seuclideanGrad_snd (eps : ℝ) (sigma x y : Fin n → ℝ) :
+    (Grad.seuclideanGrad realT eps (List.ofFn sigma) (List.ofFn x) (List.ofFn y)).2
+      = List.ofFn (fun j => (x j - y j)
+          / (eps + Real.sqrt (∑ k, (x k - y k) * (x k - y k) / sigma k) * sigma j)) := by
+  simp only [Grad.seuclideanGrad, seuclidean, diffs_ofFn, zip_ofFn, map_ofFn', sumL_ofFn, realT]
+
+theorem seuclideanGrad_length (eps : ℝ) (sigma x y : Fin n → ℝ) :
+    (Grad.seuclideanGrad realT eps (List.ofFn sigma) (List.ofFn x) (List.ofFn y)).2.length = n := by
+  rw [seuclideanGrad_snd, List.length_ofFn]
+
+/-- C14, seuclidean, general form: differentiable wherever the weighted sum of squares is
+    non-zero. -/
+theorem seuclidean_grad_hasDerivAt' (n : ℕ) (sigma x y : Fin n → ℝ) (i : Fin n)
+    (hS : ∑ j, (x j - y j) * (x j - y j) / sigma j ≠ 0) :
+    HasDerivAt
+      (fun t => (Grad.seuclideanGrad realT 0 (List.ofFn sigma)
+        (List.ofFn (Function.update x i t)) (List.ofFn y)).1)
+      ((Grad.seuclideanGrad realT 0 (List.ofFn sigma) (List.ofFn x) (List.ofFn y)).2.getD i.val 0)
+      (x i) := by
+  simp_rw [seuclideanGrad_fst]
+  rw [seuclideanGrad_snd, getD_ofFn]
+  have h1 : HasDerivAt (fun t => ∑ j, (Function.update x i t j - y j)
+      * (Function.update x i t j - y j) / sigma j) (2 * (x i - y i) / sigma i) (x i) := by
+    apply hasDerivAt_sum_update (fun j s => (s - y j) * (s - y j) / sigma j)
+    have h : HasDerivAt (fun s : ℝ => s - y i) 1 (x i) := (hasDerivAt_id' (x i)).sub_const (y i)
+    exact ((h.fun_mul h).div_const (sigma i)).congr_deriv (by ring)
+  have h2 := h1.sqrt (by simp only [Function.update_eq_self]; exact hS)
+  convert h2 using 1
+  simp only [Function.update_eq_self, zero_add]
+  rw [mul_div_assoc, two_mul_div_two_mul, div_div, mul_comm]
+
+/-- C14, seuclidean: positive variances, `x ≠ y`. -/
+theorem seuclidean_grad_hasDerivAt (n : ℕ) (sigma x y : Fin n → ℝ) (i : Fin n)
+    (hs : ∀ j, 0 < sigma j) (hne : x ≠ y) :
+    HasDerivAt
+      (fun t => (Grad.seuclideanGrad realT 0 (List.ofFn sigma)
+        (List.ofFn (Function.update x i t)) (List.ofFn y)).1)
+      ((Grad.seuclideanGrad realT 0 (List.ofFn sigma) (List.ofFn x) (List.ofFn y)).2.getD i.val 0)
+      (x i) := by
+  apply seuclidean_grad_hasDerivAt'
+  intro h
+  apply hne
+  funext j
+  have := (Finset.sum_eq_zero_iff_of_nonneg
+    (fun j _ => div_nonneg (mul_self_nonneg (x j - y j)) (hs j).le)).1 h j (Finset.mem_univ j)
+  rw [div_eq_zero_iff] at this
+  rcases this with h0 | h0
+  · have := mul_self_eq_zero.1 h0; linarith
+  · exact absurd h0 (hs j).ne'
+
+example : HasDerivAt
+    (fun t => (Grad.seuclideanGrad realT 0 (List.ofFn ![2, 3])
+      (List.ofFn (Function.update ![1, 2] 0 t)) (List.ofFn ![0, 0])).1)
+    ((Grad.seuclideanGrad realT 0 (List.ofFn ![2, 3]) (List.ofFn ![1, 2])
+      (List.ofFn ![0, 0])).2.getD (0 : Fin 2).val 0)
+    ((![1, 2] : Fin 2 → ℝ) 0) :=
+  seuclidean_grad_hasDerivAt 2 ![2, 3] ![1, 2] ![0, 0] 0
+    (by intro j; fin_cases j <;> simp)
+    (by intro h; have := congrFun h 0; simp at this)
+
+/-! ### cosine -/
+
+theorem sum_mul_self_ne_zero {x : Fin n → ℝ} (hx : x ≠ 0) : ∑ j, x j * x j ≠ 0 := by
+  intro h
+  apply hx
+  funext j
+  have := (Finset.sum_eq_zero_iff_of_nonneg
+    (fun j _ => mul_self_nonneg (x j))).1 h j (Finset.mem_univ j)
+  exact mul_self_eq_zero.1 this
+
+theorem sum_mul_self_pos {x : Fin n → ℝ} (hx : x ≠ 0) : 0 < ∑ j, x j * x j :=
+  lt_of_le_of_ne (Finset.sum_nonneg (fun j _ => mul_self_nonneg _))
+    (Ne.symm (sum_mul_self_ne_zero hx))
+
+/-- closed form of the cosine distance returned by `cosineGrad`, for every `x` once `y ≠ 0`
+    (for `x = 0` the convention `1` agrees with `1 - r / 0`). -/
+theorem cosineGrad_fst (x y : Fin n → ℝ) (hy : y ≠ 0) :
+    (Grad.cosineGrad realT (List.ofFn x) (List.ofFn y)).1
+      = 1 - (∑ j, x j * y j) / Real.sqrt ((∑ j, x j * x j) * (∑ j, y j * y j)) := by
+  have hy' := sum_mul_self_ne_zero hy
+  simp only [Grad.cosineGrad, dot_ofFn, Bool.and_eq_true, Bool.or_eq_true, eqV_iff, realT]
+  split_ifs with h1 h2
+  · exact absurd h1.2 hy'
+  · rcases h2 with h2 | h2
+    · rw [h2]; simp
+    · exact absurd h2 hy'
+  · rfl
+
+theorem cosineGrad_snd (x y : Fin n → ℝ) (hx : x ≠ 0) (hy : y ≠ 0) :
+    (Grad.cosineGrad realT (List.ofFn x) (List.ofFn y)).2
+      = List.ofFn (fun j => (x j * (∑ k, x k * y k) - y j * (∑ k, x k * x k))
+          / Real.sqrt ((∑ k, x k * x k) * (∑ k, x k * x k) * (∑ k, x k * x k)
+              * (∑ k, y k * y k))) := by
+  have hx' := sum_mul_self_ne_zero hx
+  have hy' := sum_mul_self_ne_zero hy
+  simp only [Grad.cosineGrad, dot_ofFn, Bool.and_eq_true, Bool.or_eq_true, eqV_iff, realT]
+  split_ifs with h1 h2
+  · exact absurd h1.2 hy'
+  · rcases h2 with h2 | h2
+    · exact absurd h2 hx'
+    · exact absurd h2 hy'
+  · simp only [zip_ofFn, map_ofFn']
+
+theorem cosineGrad_length (x y : Fin n → ℝ) :
+    (Grad.cosineGrad realT (List.ofFn x) (List.ofFn y)).2.length = n := by
+  simp only [Grad.cosineGrad]
+  split_ifs <;> simp
+
+theorem cosine_alg (r nx ny s xi yi : ℝ) (hnx : nx ≠ 0) (hs : s ≠ 0) (hs2 : s * s = nx * ny) :
+    -((yi * s - r * (2 * xi * ny / (2 * s))) / s ^ 2) = (xi * r - yi * nx) / (nx * s) := by
+  have hny : ny = s * s / nx := by field_simp; linarith
+  subst hny
+  field_simp
+  ring
+
+/-- C14, cosine: differentiable wherever both vectors are non-zero. -/
+theorem cosine_grad_hasDerivAt (n : ℕ) (x y : Fin n → ℝ) (i : Fin n) (hx : x ≠ 0) (hy : y ≠ 0) :
+    HasDerivAt
+      (fun t => (Grad.cosineGrad realT (List.ofFn (Function.update x i t)) (List.ofFn y)).1)
+      ((Grad.cosineGrad realT (List.ofFn x) (List.ofFn y)).2.getD i.val 0) (x i) := by
+  simp_rw [cosineGrad_fst _ y hy]
+  rw [cosineGrad_snd x y hx hy, getD_ofFn]
+  have hnx := sum_mul_self_pos hx
+  have hny := sum_mul_self_pos hy
+  have hr : HasDerivAt (fun t => ∑ j, Function.update x i t j * y j) (y i) (x i) := by
+    apply hasDerivAt_sum_update (fun j s => s * y j)
+    exact ((hasDerivAt_id' (x i)).mul_const (y i)).congr_deriv (by ring)
+  have hn : HasDerivAt (fun t => ∑ j, Function.update x i t j * Function.update x i t j)
+      (2 * x i) (x i) := by
+    apply hasDerivAt_sum_update (fun j s => s * s)
+    exact ((hasDerivAt_id' (x i)).fun_mul (hasDerivAt_id' (x i))).congr_deriv (by ring)
+  have hpos : 0 < (∑ j, x j * x j) * (∑ j, y j * y j) := mul_pos hnx hny
+  have hs := (hn.mul_const (∑ j, y j * y j)).sqrt
+    (by simp only [Function.update_eq_self]; exact hpos.ne')
+  have hd := (hr.fun_div hs
+    (by simp only [Function.update_eq_self]; exact (Real.sqrt_pos.2 hpos).ne')).const_sub 1
+  refine hd.congr_deriv ?_
+  simp only [Function.update_eq_self]
+  have e4 : Real.sqrt ((∑ k, x k * x k) * (∑ k, x k * x k) * (∑ k, x k * x k) * (∑ k, y k * y k))
+      = (∑ k, x k * x k) * Real.sqrt ((∑ k, x k * x k) * (∑ k, y k * y k)) := by
+    rw [mul_assoc, Real.sqrt_mul (mul_self_nonneg _), Real.sqrt_mul_self hnx.le]
+  rw [e4]
+  exact cosine_alg _ _ _ _ _ _ hnx.ne' (Real.sqrt_pos.2 hpos).ne' (Real.mul_self_sqrt hpos.le)
+
+example : HasDerivAt
+    (fun t => (Grad.cosineGrad realT (List.ofFn (Function.update ![1, 2] 0 t))
+      (List.ofFn ![3, 1])).1)
+    ((Grad.cosineGrad realT (List.ofFn ![1, 2]) (List.ofFn ![3, 1])).2.getD (0 : Fin 2).val 0)
+    ((![1, 2] : Fin 2 → ℝ) 0) :=
+  cosine_grad_hasDerivAt 2 ![1, 2] ![3, 1] 0
+    (by intro h; have := congrFun h 0; simp at this)
+    (by intro h; have := congrFun h 0; simp at this)
+
+/-! ### Bray–Curtis -/
+
+/-- closed form of the returned distance, for all inputs (a zero denominator gives `0` either
+    way). -/
+theorem brayCurtisGrad_fst (x y : Fin n → ℝ) :
+    (Grad.brayCurtisGrad (List.ofFn x) (List.ofFn y)).1
+      = (∑ j, |x j - y j|) / (∑ j, |x j + y j|) := by
+  simp only [Grad.brayCurtisGrad, sumL_zip_map_ofFn, absV_eq_abs]
+  split_ifs with h
+  · rfl
+  · have : ∑ j, |x j + y j| = 0 :=
+      le_antisymm (not_lt.1 h) (Finset.sum_nonneg (fun j _ => abs_nonneg _))
+    rw [this, div_zero]
+
+theorem brayCurtisGrad_snd (x y : Fin n → ℝ) (hden : 0 < ∑ j, |x j + y j|) :
+    (Grad.brayCurtisGrad (List.ofFn x) (List.ofFn y)).2
+      = List.ofFn (fun j => (signV (x j - y j)
+          - (∑ k, |x k - y k|) / (∑ k, |x k + y k|) * signV (x j + y j))
+          / (∑ k, |x k + y k|)) := by
+  simp only [Grad.brayCurtisGrad, sumL_zip_map_ofFn, absV_eq_abs]
+  rw [if_pos hden]
+  simp only [zip_ofFn, map_ofFn']
+
+theorem brayCurtisGrad_length (x y : Fin n → ℝ) :
+    (Grad.brayCurtisGrad (List.ofFn x) (List.ofFn y)).2.length = n := by
+  simp only [Grad.brayCurtisGrad]
+  split_ifs <;> simp
+
+/-- C14, Bray–Curtis: differentiable in `x i` wherever `x i ≠ y i` and `x i + y i ≠ 0` (the
+    latter also makes the denominator positive). -/
+theorem brayCurtis_grad_hasDerivAt (n : ℕ) (x y : Fin n → ℝ) (i : Fin n)
+    (hi : x i ≠ y i) (hs : x i + y i ≠ 0) :
+    HasDerivAt
+      (fun t => (Grad.brayCurtisGrad (List.ofFn (Function.update x i t)) (List.ofFn y)).1)
+      ((Grad.brayCurtisGrad (List.ofFn x) (List.ofFn y)).2.getD i.val 0) (x i) := by
+  have hden : 0 < ∑ j, |x j + y j| :=
+    lt_of_lt_of_le (abs_pos.2 hs)
+      (Finset.single_le_sum (f := fun j => |x j + y j|) (fun j _ => abs_nonneg _)
+        (Finset.mem_univ i))
+  simp_rw [brayCurtisGrad_fst]
+  rw [brayCurtisGrad_snd x y hden, getD_ofFn]
+  have hnum := hasDerivAt_sum_update (fun j s => |s - y j|) x i _ (hasDerivAt_abs_sub hi)
+  have hd := hasDerivAt_sum_update (fun j s => |s + y j|) x i _ (hasDerivAt_abs_add hs)
+  have h := hnum.fun_div hd (by simp only [Function.update_eq_self]; exact hden.ne')
+  refine h.congr_deriv ?_
+  simp only [Function.update_eq_self]
+  field_simp
+
+example : HasDerivAt
+    (fun t => (Grad.brayCurtisGrad (List.ofFn (Function.update ![1, 2] 0 t))
+      (List.ofFn ![3, 1])).1)
+    ((Grad.brayCurtisGrad (List.ofFn ![1, 2]) (List.ofFn ![3, 1])).2.getD (0 : Fin 2).val 0)
+    ((![1, 2] : Fin 2 → ℝ) 0) :=
+  brayCurtis_grad_hasDerivAt 2 ![1, 2] ![3, 1] 0 (by simp) (by simp; norm_num)
+
+/-! ### Canberra -/
+
+theorem canberraGrad_fst (x y : Fin n → ℝ) :
+    (Grad.canberraGrad (List.ofFn x) (List.ofFn y)).1
+      = ∑ j, |x j - y j| / (|x j| + |y j|) := by
+  simp only [Grad.canberraGrad, canberra, sumL_zip_map_ofFn, absV_eq_abs]
+  apply Finset.sum_congr rfl
+  intro j _
+  split_ifs with h
+  · rfl
+  · have : |x j| + |y j| = 0 :=
+      le_antisymm (not_lt.1 h) (add_nonneg (abs_nonneg _) (abs_nonneg _))
+    rw [this, div_zero]
+
+theorem canberraGrad_snd (x y : Fin n → ℝ) :
+    (Grad.canberraGrad (List.ofFn x) (List.ofFn y)).2
+      = List.ofFn (fun j => if 0 < |x j| + |y j| then
+          signV (x j - y j) / (|x j| + |y j|)
+            - |x j - y j| * signV (x j) / ((|x j| + |y j|) * (|x j| + |y j|)) else 0) := by
+  simp only [Grad.canberraGrad, zip_ofFn, map_ofFn', absV_eq_abs]
+
+theorem canberraGrad_length (x y : Fin n → ℝ) :
+    (Grad.canberraGrad (List.ofFn x) (List.ofFn y)).2.length = n := by
+  rw [canberraGrad_snd, List.length_ofFn]
+
+/-- C14, Canberra: differentiable in `x i` wherever `x i ≠ 0` and `x i ≠ y i`. -/
+theorem canberra_grad_hasDerivAt (n : ℕ) (x y : Fin n → ℝ) (i : Fin n)
+    (h0 : x i ≠ 0) (hi : x i ≠ y i) :
+    HasDerivAt
+      (fun t => (Grad.canberraGrad (List.ofFn (Function.update x i t)) (List.ofFn y)).1)
+      ((Grad.canberraGrad (List.ofFn x) (List.ofFn y)).2.getD i.val 0) (x i) := by
+  have hden : 0 < |x i| + |y i| := add_pos_of_pos_of_nonneg (abs_pos.2 h0) (abs_nonneg _)
+  simp_rw [canberraGrad_fst]
+  rw [canberraGrad_snd, getD_ofFn, if_pos hden]
+  apply hasDerivAt_sum_update (fun j s => |s - y j| / (|s| + |y j|))
+  have h := (hasDerivAt_abs_sub hi).fun_div ((hasDerivAt_abs_signV h0).add_const |y i|) hden.ne'
+  refine h.congr_deriv ?_
+  field_simp
+
+example : HasDerivAt
+    (fun t => (Grad.canberraGrad (List.ofFn (Function.update ![1, 2] 0 t))
+      (List.ofFn ![3, 1])).1)
+    ((Grad.canberraGrad (List.ofFn ![1, 2]) (List.ofFn ![3, 1])).2.getD (0 : Fin 2).val 0)
+    ((![1, 2] : Fin 2 → ℝ) 0) :=
+  canberra_grad_hasDerivAt 2 ![1, 2] ![3, 1] 0 (by simp) (by simp)
+
+/-! ### correlation -/
+
+/-- the mean of a vector. -/
+noncomputable def cmean (x : Fin n → ℝ) : ℝ := (∑ j, x j) / (n : ℝ)
+
+/-- the centred dot product `∑ (x j - mean x) (y j - mean y)`. -/
+noncomputable def cdot (x y : Fin n → ℝ) : ℝ := ∑ j, (x j - cmean x) * (y j - cmean y)
+
+theorem sum_sub_cmean (y : Fin n → ℝ) (hn : (n : ℝ) ≠ 0) : ∑ j, (y j - cmean y) = 0 := by
+  rw [Finset.sum_sub_distrib, Finset.sum_const, Finset.card_univ, Fintype.card_fin, nsmul_eq_mul,
+    cmean, mul_div_cancel₀ _ hn, sub_self]
+
+theorem correlation_core (x y : Fin n → ℝ) :
+    dot ((List.ofFn x).map (· - mean (List.ofFn x)))
+        ((List.ofFn y).map (· - sumL (List.ofFn y) / ((List.ofFn x).length : ℝ)))
+      = cdot x y := by
+  simp only [mean, sumL_ofFn, List.length_ofFn, map_ofFn', dot_ofFn, cdot, cmean]
+
+/-- closed form of the returned correlation distance, for every `x` once `y` is not constant. -/
+theorem correlationGrad_fst (x y : Fin n → ℝ) (hy : cdot y y ≠ 0) :
+    (Grad.correlationGrad realT (List.ofFn x) (List.ofFn y)).1
+      = 1 - cdot x y / Real.sqrt (cdot x x * cdot y y) := by
+  have e1 := correlation_core x y
+  have e2 := correlation_core x x
+  have e3 : dot ((List.ofFn y).map (· - sumL (List.ofFn y) / ((List.ofFn x).length : ℝ)))
+        ((List.ofFn y).map (· - sumL (List.ofFn y) / ((List.ofFn x).length : ℝ))) = cdot y y := by
+    simp only [sumL_ofFn, List.length_ofFn, map_ofFn', dot_ofFn, cdot, cmean]
+  simp only [mean] at e1 e2
+  simp only [Grad.correlationGrad, mean, e1, e2, e3, Bool.and_eq_true, eqV_iff, realT]
+  split_ifs with h1 h2
+  · exact absurd h1.2 hy
+  · rw [h2]; simp
+  · rfl
+
+theorem correlationGrad_snd (x y : Fin n → ℝ) (hy : cdot y y ≠ 0) (hdp : cdot x y ≠ 0) :
+    (Grad.correlationGrad realT (List.ofFn x) (List.ofFn y)).2
+      = List.ofFn (fun j => ((x j - cmean x) / cdot x x - (y j - cmean y) / cdot x y)
+          * (1 - (1 - cdot x y / Real.sqrt (cdot x x * cdot y y)))) := by
+  have e1 := correlation_core x y
+  have e2 := correlation_core x x
+  have e3 : dot ((List.ofFn y).map (· - sumL (List.ofFn y) / ((List.ofFn x).length : ℝ)))
+        ((List.ofFn y).map (· - sumL (List.ofFn y) / ((List.ofFn x).length : ℝ))) = cdot y y := by
+    simp only [sumL_ofFn, List.length_ofFn, map_ofFn', dot_ofFn, cdot, cmean]
+  simp only [mean] at e1 e2
+  simp only [Grad.correlationGrad, mean, e1, e2, e3, Bool.and_eq_true, eqV_iff, realT]
+  split_ifs with h1
+  · exact absurd h1.2 hy
+  · simp only [sumL_ofFn, List.length_ofFn, map_ofFn', zip_ofFn, cmean]
+
+theorem correlationGrad_length (x y : Fin n → ℝ) :
+    (Grad.correlationGrad realT (List.ofFn x) (List.ofFn y)).2.length = n := by
+  simp only [Grad.correlationGrad]
+  split_ifs <;> simp
+
+theorem hasDerivAt_cmean (x : Fin n → ℝ) (i : Fin n) :
+    HasDerivAt (fun t => cmean (Function.update x i t)) (1 / (n : ℝ)) (x i) := by
+  unfold cmean
+  exact (hasDerivAt_sum_update (fun _ s => s) x i 1 (hasDerivAt_id' _)).div_const _
+
+theorem hasDerivAt_centred (x : Fin n → ℝ) (i j : Fin n) :
+    HasDerivAt (fun t => Function.update x i t j - cmean (Function.update x i t))
+      ((if j = i then 1 else 0) - 1 / (n : ℝ)) (x i) :=
+  (hasDerivAt_update_apply x i j).fun_sub (hasDerivAt_cmean x i)
+
+theorem sum_ite_sub_mul (c : Fin n → ℝ) (i : Fin n) (hc : ∑ j, c j = 0) :
+    ∑ j, ((if j = i then 1 else 0) - 1 / (n : ℝ)) * c j = c i := by
+  simp only [sub_mul, Finset.sum_sub_distrib, ite_mul, one_mul, zero_mul, Finset.sum_ite_eq',
+    Finset.mem_univ, if_true, ← Finset.mul_sum, hc, mul_zero, sub_zero]
+
+/-- derivative of the centred dot product with a fixed centred vector. -/
+theorem hasDerivAt_cdot_left (x y : Fin n → ℝ) (i : Fin n) :
+    HasDerivAt (fun t => cdot (Function.update x i t) y) (y i - cmean y) (x i) := by
+  have hn : (n : ℝ) ≠ 0 := (Nat.cast_pos.2 i.pos).ne'
+  unfold cdot
+  have h := HasDerivAt.fun_sum (u := Finset.univ)
+    (fun j _ => (hasDerivAt_centred x i j).mul_const (y j - cmean y))
+  refine h.congr_deriv ?_
+  exact sum_ite_sub_mul (fun j => y j - cmean y) i (sum_sub_cmean y hn)
+
+theorem hasDerivAt_cdot_self (x : Fin n → ℝ) (i : Fin n) :
+    HasDerivAt (fun t => cdot (Function.update x i t) (Function.update x i t))
+      (2 * (x i - cmean x)) (x i) := by
+  have hn : (n : ℝ) ≠ 0 := (Nat.cast_pos.2 i.pos).ne'
+  unfold cdot
+  have h := HasDerivAt.fun_sum (u := Finset.univ)
+    (fun j _ => (hasDerivAt_centred x i j).fun_mul (hasDerivAt_centred x i j))
+  refine h.congr_deriv ?_
+  simp only [Function.update_eq_self]
+  have := sum_ite_sub_mul (fun j => x j - cmean x) i (sum_sub_cmean x hn)
+  rw [two_mul]
+  nth_rewrite 1 [← this]
+  nth_rewrite 1 [← this]
+  rw [← Finset.sum_add_distrib]
+  apply Finset.sum_congr rfl
+  intro j _
+  ring
+
+/-- the true derivative of the correlation distance (no condition on the centred dot product). -/
+theorem correlation_hasDerivAt_true (x y : Fin n → ℝ) (i : Fin n)
+    (hx : cdot x x ≠ 0) (hy : cdot y y ≠ 0) :
+    HasDerivAt
+      (fun t => (Grad.correlationGrad realT (List.ofFn (Function.update x i t)) (List.ofFn y)).1)
+      (((x i - cmean x) * cdot x y - (y i - cmean y) * cdot x x)
+        / (cdot x x * Real.sqrt (cdot x x * cdot y y))) (x i) := by
+  simp_rw [correlationGrad_fst _ y hy]
+  have hnx : 0 < cdot x x :=
+    lt_of_le_of_ne (Finset.sum_nonneg (fun j _ => mul_self_nonneg _)) (Ne.symm hx)
+  have hny : 0 < cdot y y :=
+    lt_of_le_of_ne (Finset.sum_nonneg (fun j _ => mul_self_nonneg _)) (Ne.symm hy)
+  have hpos : 0 < cdot x x * cdot y y := mul_pos hnx hny
+  have hs := ((hasDerivAt_cdot_self x i).mul_const (cdot y y)).sqrt
+    (by simp only [Function.update_eq_self]; exact hpos.ne')
+  have hd := ((hasDerivAt_cdot_left x y i).fun_div hs
+    (by simp only [Function.update_eq_self]; exact (Real.sqrt_pos.2 hpos).ne')).const_sub 1
+  refine hd.congr_deriv ?_
+  simp only [Function.update_eq_self]
+  exact cosine_alg _ _ _ _ _ _ hnx.ne' (Real.sqrt_pos.2 hpos).ne' (Real.mul_self_sqrt hpos.le)
+
+/-- C14, correlation: where neither vector is constant and the centred dot product is non-zero,
+    the returned gradient is the derivative.  (At `cdot x y = 0` the code returns a zero
+    gradient although the distance is differentiable there with derivative
+    `-(y i - mean y) / sqrt (nx ny)`, see `correlation_hasDerivAt_true`.) -/
+theorem correlation_grad_hasDerivAt (n : ℕ) (x y : Fin n → ℝ) (i : Fin n)
+    (hx : cdot x x ≠ 0) (hy : cdot y y ≠ 0) (hdp : cdot x y ≠ 0) :
+    HasDerivAt
+      (fun t => (Grad.correlationGrad realT (List.ofFn (Function.update x i t)) (List.ofFn y)).1)
+      ((Grad.correlationGrad realT (List.ofFn x) (List.ofFn y)).2.getD i.val 0) (x i) := by
+  refine (correlation_hasDerivAt_true x y i hx hy).congr_deriv ?_
+  rw [correlationGrad_snd x y hy hdp, getD_ofFn]
+  have hnx : 0 < cdot x x :=
+    lt_of_le_of_ne (Finset.sum_nonneg (fun j _ => mul_self_nonneg _)) (Ne.symm hx)
+  have hny : 0 < cdot y y :=
+    lt_of_le_of_ne (Finset.sum_nonneg (fun j _ => mul_self_nonneg _)) (Ne.symm hy)
+  have hs : Real.sqrt (cdot x x * cdot y y) ≠ 0 := (Real.sqrt_pos.2 (mul_pos hnx hny)).ne'
+  field_simp
+  ring
+
+example : HasDerivAt
+    (fun t => (Grad.correlationGrad realT (List.ofFn (Function.update ![1, 2, 4] 0 t))
+      (List.ofFn ![0, 1, 0])).1)
+    ((Grad.correlationGrad realT (List.ofFn ![1, 2, 4])
+      (List.ofFn ![0, 1, 0])).2.getD (0 : Fin 3).val 0)
+    ((![1, 2, 4] : Fin 3 → ℝ) 0) :=
+  correlation_grad_hasDerivAt 3 ![1, 2, 4] ![0, 1, 0] 0
+    (by simp [cdot, cmean, Fin.sum_univ_three]; norm_num)
+    (by simp [cdot, cmean, Fin.sum_univ_three]; norm_num)
+    (by simp [cdot, cmean, Fin.sum_univ_three]; norm_num)
+
+/-! ### chebyshev (unique maximiser) -/
+
+/-- the fold step of `Grad.argmaxAbs`. -/
+noncomputable def amStep (acc : ℕ × ℕ × ℝ) (v : ℝ) : ℕ × ℕ × ℝ :=
+  if acc.2.2 < absV v then (acc.1 + 1, acc.1, absV v) else (acc.1 + 1, acc.2.1, acc.2.2)
+
+theorem argmaxAbs_eq (ds : List ℝ) :
+    Grad.argmaxAbs ds = ((ds.foldl amStep (0, 0, 0)).2.1, (ds.foldl amStep (0, 0, 0)).2.2) := rfl
+
+/-- the running maximum dominates every element and is either the initial value or attained,
+    at the recorded index. -/
+theorem amFold_spec (l : List ℝ) (acc : ℕ × ℕ × ℝ) :
+    acc.2.2 ≤ (l.foldl amStep acc).2.2 ∧ (∀ v ∈ l, |v| ≤ (l.foldl amStep acc).2.2) ∧
+    (((l.foldl amStep acc).2.1 = acc.2.1 ∧ (l.foldl amStep acc).2.2 = acc.2.2) ∨
+      ∃ k, ∃ hk : k < l.length,
+        (l.foldl amStep acc).2.1 = acc.1 + k ∧ (l.foldl amStep acc).2.2 = |l[k]|) := by
+  induction l generalizing acc with
+  | nil => simp
+  | cons v l ih =>
+    simp only [List.foldl_cons]
+    obtain ⟨h1, h2, h3⟩ := ih (amStep acc v)
+    have hs1 : (amStep acc v).1 = acc.1 + 1 := by unfold amStep; split_ifs <;> rfl
+    have hs2 : acc.2.2 ≤ (amStep acc v).2.2 ∧ |v| ≤ (amStep acc v).2.2 := by
+      unfold amStep; rw [absV_eq_abs]; split_ifs with h
+      · exact ⟨h.le, le_refl _⟩
+      · exact ⟨le_refl _, not_lt.1 h⟩
+    have hs3 : ((amStep acc v).2.1 = acc.2.1 ∧ (amStep acc v).2.2 = acc.2.2) ∨
+        ((amStep acc v).2.1 = acc.1 ∧ (amStep acc v).2.2 = |v|) := by
+      unfold amStep; rw [absV_eq_abs]; split_ifs with h
+      · right; exact ⟨rfl, rfl⟩
+      · left; exact ⟨rfl, rfl⟩
+    refine ⟨le_trans hs2.1 h1, ?_, ?_⟩
+    · intro w hw
+      rcases List.mem_cons.1 hw with rfl | hw
+      · exact le_trans hs2.2 h1
+      · exact h2 w hw
+    · rcases h3 with ⟨e1, e2⟩ | ⟨k, hk, e1, e2⟩
+      · rcases hs3 with ⟨f1, f2⟩ | ⟨f1, f2⟩
+        · left; exact ⟨e1.trans f1, e2.trans f2⟩
+        · right
+          refine ⟨0, by simp, ?_, ?_⟩
+          · rw [e1, f1]; rfl
+          · rw [e2, f2]; rfl
+      · right
+        refine ⟨k + 1, by simp only [List.length_cons]; omega, ?_, ?_⟩
+        · rw [e1, hs1]; omega
+        · rw [e2]; rfl
+
+theorem argmaxAbs_ofFn_unique (ds : Fin n → ℝ) (k : Fin n) (hpos : ds k ≠ 0)
+    (hmax : ∀ j, j ≠ k → |ds j| < |ds k|) :
+    Grad.argmaxAbs (List.ofFn ds) = (k.val, |ds k|) := by
+  obtain ⟨_, h2, h3⟩ := amFold_spec (List.ofFn ds) (0, 0, 0)
+  rw [argmaxAbs_eq]
+  have hk : |ds k| ≤ ((List.ofFn ds).foldl amStep (0, 0, 0)).2.2 :=
+    h2 _ (by rw [List.mem_ofFn]; exact ⟨k, rfl⟩)
+  have hp : 0 < |ds k| := abs_pos.2 hpos
+  rcases h3 with ⟨_, e2⟩ | ⟨m, hm, e1, e2⟩
+  · rw [e2] at hk; exact absurd hk (not_le.2 hp)
+  · have hm' : m < n := by simpa using hm
+    rw [List.getElem_ofFn] at e2
+    have hmk : (⟨m, hm'⟩ : Fin n) = k := by
+      by_contra hne
+      have := hmax _ hne
+      rw [e2] at hk
+      exact absurd hk (not_le.2 this)
+    subst hmk
+    rw [e1, e2]
+    simp
+
+theorem zipIdx_ofFn (f : Fin n → ℝ) :
+    (List.ofFn f).zipIdx = List.ofFn (fun j => (f j, j.val)) := by
+  apply List.ext_getElem
+  · simp
+  · intro k h1 h2; simp
+
+/-- `chebyshevGrad` when coordinate `k` is the unique maximiser of `|x j - y j|`. -/
+theorem chebyshevGrad_eq (x y : Fin n → ℝ) (k : Fin n) (hk : x k ≠ y k)
+    (hmax : ∀ j, j ≠ k → |x j - y j| < |x k - y k|) :
+    Grad.chebyshevGrad (List.ofFn x) (List.ofFn y)
+      = (|x k - y k|,
+         List.ofFn (fun j => if j.val = k.val then signV (x j - y j) else 0)) := by
+  simp only [Grad.chebyshevGrad, diffs_ofFn]
+  rw [argmaxAbs_ofFn_unique (fun j => x j - y j) k (sub_ne_zero.2 hk) hmax]
+  simp only [zipIdx_ofFn, map_ofFn']
+
+theorem chebyshevGrad_length (x y : Fin n → ℝ) :
+    (Grad.chebyshevGrad (List.ofFn x) (List.ofFn y)).2.length = n := by
+  simp only [Grad.chebyshevGrad, diffs_ofFn]
+  simp
+
+theorem continuousAt_update_apply (x : Fin n → ℝ) (i j : Fin n) :
+    ContinuousAt (fun t => Function.update x i t j) (x i) :=
+  (hasDerivAt_update_apply x i j).continuousAt
+
+/-- C14, chebyshev: when a single coordinate `k` attains the maximum (strictly, and
+    `x k ≠ y k`), the distance is differentiable and the gradient is the signed indicator of
+    `k`. -/
+theorem chebyshev_grad_hasDerivAt (n : ℕ) (x y : Fin n → ℝ) (i k : Fin n) (hk : x k ≠ y k)
+    (hmax : ∀ j, j ≠ k → |x j - y j| < |x k - y k|) :
+    HasDerivAt
+      (fun t => (Grad.chebyshevGrad (List.ofFn (Function.update x i t)) (List.ofFn y)).1)
+      ((Grad.chebyshevGrad (List.ofFn x) (List.ofFn y)).2.getD i.val 0) (x i) := by
+  rw [chebyshevGrad_eq x y k hk hmax, getD_ofFn]
+  -- near `x i` the same coordinate stays the unique maximiser
+  have hev : ∀ᶠ t in nhds (x i),
+      (Grad.chebyshevGrad (List.ofFn (Function.update x i t)) (List.ofFn y)).1
+        = |Function.update x i t k - y k| := by
+    have hc : ∀ j, ContinuousAt (fun t => |Function.update x i t j - y j|) (x i) :=
+      fun j => ((continuousAt_update_apply x i j).sub continuousAt_const).abs
+    have h0 : ∀ᶠ t in nhds (x i), 0 < |Function.update x i t k - y k| := by
+      apply ContinuousAt.eventually_lt continuousAt_const (hc k)
+      simp only [Function.update_eq_self]
+      exact abs_pos.2 (sub_ne_zero.2 hk)
+    have h1 : ∀ᶠ t in nhds (x i), ∀ j, j ≠ k →
+        |Function.update x i t j - y j| < |Function.update x i t k - y k| := by
+      rw [Filter.eventually_all]
+      intro j
+      by_cases hj : j = k
+      · exact Filter.Eventually.of_forall (fun t h => absurd hj h)
+      · have := ContinuousAt.eventually_lt (hc j) (hc k)
+          (by simp only [Function.update_eq_self]; exact hmax j hj)
+        exact this.mono (fun t ht _ => ht)
+    filter_upwards [h0, h1] with t ht0 ht1
+    rw [chebyshevGrad_eq _ y k (sub_ne_zero.1 (abs_pos.1 ht0)) ht1]
+  refine HasDerivAt.congr_of_eventuallyEq ?_ hev
+  by_cases hik : i = k
+  · subst hik
+    simp only [Function.update_self, if_true]
+    exact hasDerivAt_abs_sub hk
+  · have : i.val ≠ k.val := fun h => hik (Fin.ext h)
+    simp only [Function.update_of_ne (Ne.symm hik), if_neg this]
+    exact hasDerivAt_const _ _
+
+example : HasDerivAt
+    (fun t => (Grad.chebyshevGrad (List.ofFn (Function.update ![1, 5] 1 t))
+      (List.ofFn ![3, 1])).1)
+    ((Grad.chebyshevGrad (List.ofFn ![1, 5]) (List.ofFn ![3, 1])).2.getD (1 : Fin 2).val 0)
+    ((![1, 5] : Fin 2 → ℝ) 1) :=
+  chebyshev_grad_hasDerivAt 2 ![1, 5] ![3, 1] 1 1 (by simp)
+    (by intro j hj; fin_cases j <;> simp at hj ⊢ <;> norm_num)
+
+/-! ### hellinger -/
+
+/-- closed form of the returned Hellinger distance, for every `x` once `∑ y ≠ 0`. -/
+theorem hellingerGrad_fst (x y : Fin n → ℝ) (hy : ∑ j, y j ≠ 0) :
+    (Grad.hellingerGrad realT (List.ofFn x) (List.ofFn y)).1
+      = Real.sqrt (1 - (∑ j, Real.sqrt (x j * y j)) / Real.sqrt ((∑ j, x j) * (∑ j, y j))) := by
+  simp only [Grad.hellingerGrad, sumL_zip_map_ofFn, sumL_ofFn, zip_ofFn, map_ofFn',
+    Bool.and_eq_true, Bool.or_eq_true, eqV_iff, realT]
+  split_ifs with h1 h2
+  · exact absurd h1.2 hy
+  · rcases h2 with h2 | h2
+    · rw [h2]; simp
+    · exact absurd h2 hy
+  · rfl
+
+theorem hellingerGrad_snd (x y : Fin n → ℝ) (hx : ∑ j, x j ≠ 0) (hy : ∑ j, y j ≠ 0) :
+    (Grad.hellingerGrad realT (List.ofFn x) (List.ofFn y)).2
+      = List.ofFn (fun j =>
+          (((∑ k, y k) * (∑ k, Real.sqrt (x k * y k)))
+              / (2 * (Real.sqrt ((∑ k, x k) * (∑ k, y k)) * Real.sqrt ((∑ k, x k) * (∑ k, y k))
+                  * Real.sqrt ((∑ k, x k) * (∑ k, y k))))
+            - y j / (2 * Real.sqrt (x j * y j) * Real.sqrt ((∑ k, x k) * (∑ k, y k))))
+          / (2 * Real.sqrt (1 - (∑ k, Real.sqrt (x k * y k))
+              / Real.sqrt ((∑ k, x k) * (∑ k, y k))))) := by
+  simp only [Grad.hellingerGrad, sumL_zip_map_ofFn, sumL_ofFn, zip_ofFn, map_ofFn',
+    Bool.and_eq_true, Bool.or_eq_true, eqV_iff, realT, two, Nat.cast_ofNat]
+  split_ifs with h1 h2
+  · exact absurd h1.2 hy
+  · rcases h2 with h2 | h2
+    · exact absurd h2 hx
+    · exact absurd h2 hy
+  · rfl
+
+theorem hellingerGrad_length (x y : Fin n → ℝ) :
+    (Grad.hellingerGrad realT (List.ofFn x) (List.ofFn y)).2.length = n := by
+  simp only [Grad.hellingerGrad]
+  split_ifs <;> simp
+
+/-- C14, hellinger: differentiable in `x i` where `x i * y i ≠ 0`, both masses are positive and
+    the distance is non-zero. -/
+theorem hellinger_grad_hasDerivAt (n : ℕ) (x y : Fin n → ℝ) (i : Fin n)
+    (hi : x i * y i ≠ 0) (hx : 0 < ∑ j, x j) (hy : 0 < ∑ j, y j)
+    (hd : 1 - (∑ j, Real.sqrt (x j * y j)) / Real.sqrt ((∑ j, x j) * (∑ j, y j)) ≠ 0) :
+    HasDerivAt
+      (fun t => (Grad.hellingerGrad realT (List.ofFn (Function.update x i t)) (List.ofFn y)).1)
+      ((Grad.hellingerGrad realT (List.ofFn x) (List.ofFn y)).2.getD i.val 0) (x i) := by
+  simp_rw [hellingerGrad_fst _ y hy.ne']
+  rw [hellingerGrad_snd x y hx.ne' hy.ne', getD_ofFn]
+  have hpos : 0 < (∑ j, x j) * (∑ j, y j) := mul_pos hx hy
+  have hr : HasDerivAt (fun t => ∑ j, Real.sqrt (Function.update x i t j * y j))
+      (1 * y i / (2 * Real.sqrt (x i * y i))) (x i) :=
+    hasDerivAt_sum_update (fun j s => Real.sqrt (s * y j)) x i _
+      (((hasDerivAt_id' (x i)).mul_const (y i)).sqrt hi)
+  have hl : HasDerivAt (fun t => ∑ j, Function.update x i t j) 1 (x i) :=
+    hasDerivAt_sum_update (fun _ s => s) x i 1 (hasDerivAt_id' _)
+  have hdd := (hl.mul_const (∑ j, y j)).sqrt
+    (by simp only [Function.update_eq_self]; exact hpos.ne')
+  have hq := (hr.fun_div hdd
+    (by simp only [Function.update_eq_self]; exact (Real.sqrt_pos.2 hpos).ne')).const_sub 1
+  have h := hq.sqrt (by simp only [Function.update_eq_self]; exact hd)
+  refine h.congr_deriv ?_
+  simp only [Function.update_eq_self]
+  have hdd0 : Real.sqrt ((∑ j, x j) * (∑ j, y j)) ≠ 0 := (Real.sqrt_pos.2 hpos).ne'
+  congr 1
+  by_cases hg0 : Real.sqrt (x i * y i) = 0
+  · rw [hg0]
+    simp only [mul_zero, zero_mul, div_zero, zero_sub]
+    field_simp
+    ring
+  · field_simp
+    ring
+
+example : HasDerivAt
+    (fun t => (Grad.hellingerGrad realT (List.ofFn (Function.update ![1, 4] 0 t))
+      (List.ofFn ![4, 1])).1)
+    ((Grad.hellingerGrad realT (List.ofFn ![1, 4]) (List.ofFn ![4, 1])).2.getD (0 : Fin 2).val 0)
+    ((![1, 4] : Fin 2 → ℝ) 0) := by
+  have h4 : Real.sqrt 4 = 2 := by
+    rw [show (4 : ℝ) = 2 ^ 2 by norm_num]; exact Real.sqrt_sq (by norm_num)
+  have h25 : Real.sqrt 25 = 5 := by
+    rw [show (25 : ℝ) = 5 ^ 2 by norm_num]; exact Real.sqrt_sq (by norm_num)
+  refine hellinger_grad_hasDerivAt 2 ![1, 4] ![4, 1] 0 (by simp) ?_ ?_ ?_
+  · simp [Fin.sum_univ_two]; norm_num
+  · simp [Fin.sum_univ_two]; norm_num
+  · simp only [Fin.sum_univ_two, Matrix.cons_val_zero, Matrix.cons_val_one]
+    norm_num [h4, h25]
+
+/-! ### mahalanobis (symmetric `vinv`) -/
+
+theorem mahalanobisGrad_fst (eps : ℝ) (V : Fin n → Fin n → ℝ) (x y : Fin n → ℝ) :
+    (Grad.mahalanobisGrad realT eps (List.ofFn (fun j => List.ofFn (V j)))
+        (List.ofFn x) (List.ofFn y)).1
+      = Real.sqrt (∑ j, (∑ k, V j k * (x k - y k)) * (x j - y j)) := by
+  simp only [Grad.mahalanobisGrad, diffs_ofFn, zip_ofFn, map_ofFn', sumL_ofFn, realT]
+
+theorem mahalanobisGrad_snd (eps : ℝ) (V : Fin n → Fin n → ℝ) (x y : Fin n → ℝ) :
+    (Grad.mahalanobisGrad realT eps (List.ofFn (fun j => List.ofFn (V j)))
+        (List.ofFn x) (List.ofFn y)).2
+      = List.ofFn (fun j => (∑ k, V j k * (x k - y k))
+          / (eps + Real.sqrt (∑ l, (∑ k, V l k * (x k - y k)) * (x l - y l)))) := by
+  simp only [Grad.mahalanobisGrad, diffs_ofFn, zip_ofFn, map_ofFn', sumL_ofFn, realT]
+
+theorem mahalanobisGrad_length (eps : ℝ) (V : Fin n → Fin n → ℝ) (x y : Fin n → ℝ) :
+    (Grad.mahalanobisGrad realT eps (List.ofFn (fun j => List.ofFn (V j)))
+        (List.ofFn x) (List.ofFn y)).2.length = n := by
+  rw [mahalanobisGrad_snd, List.length_ofFn]
+
+/-- the distance returned by `mahalanobisGrad` is `Metrics.mahalanobis`. -/
+theorem mahalanobisGrad_fst_eq_metric (eps : ℝ) (V : Fin n → Fin n → ℝ) (x y : Fin n → ℝ) :
+    (Grad.mahalanobisGrad realT eps (List.ofFn (fun j => List.ofFn (V j)))
+        (List.ofFn x) (List.ofFn y)).1
+      = mahalanobis realT (List.ofFn (fun j => List.ofFn (V j))) (List.ofFn x) (List.ofFn y) := by
+  simp only [Grad.mahalanobisGrad, mahalanobis, diffs_ofFn, zip_ofFn, map_ofFn', sumL_ofFn, realT]
+
+/-- C14, mahalanobis: for a symmetric `vinv`, differentiable wherever the quadratic form is
+    non-zero. -/
+theorem mahalanobis_grad_hasDerivAt (n : ℕ) (V : Fin n → Fin n → ℝ) (x y : Fin n → ℝ)
+    (i : Fin n) (hsym : ∀ j k, V j k = V k j)
+    (hQ : ∑ j, (∑ k, V j k * (x k - y k)) * (x j - y j) ≠ 0) :
+    HasDerivAt
+      (fun t => (Grad.mahalanobisGrad realT 0 (List.ofFn (fun j => List.ofFn (V j)))
+        (List.ofFn (Function.update x i t)) (List.ofFn y)).1)
+      ((Grad.mahalanobisGrad realT 0 (List.ofFn (fun j => List.ofFn (V j)))
+        (List.ofFn x) (List.ofFn y)).2.getD i.val 0) (x i) := by
+  simp_rw [mahalanobisGrad_fst]
+  rw [mahalanobisGrad_snd, getD_ofFn]
+  have hin : ∀ j, HasDerivAt (fun t => ∑ k, V j k * (Function.update x i t k - y k))
+      (V j i) (x i) := by
+    intro j
+    apply hasDerivAt_sum_update (fun k s => V j k * (s - y k))
+    exact (((hasDerivAt_id' (x i)).sub_const (y i)).const_mul (V j i)).congr_deriv (by ring)
+  have hout : ∀ j, HasDerivAt (fun t => Function.update x i t j - y j)
+      (if j = i then 1 else 0) (x i) :=
+    fun j => (hasDerivAt_update_apply x i j).sub_const (y j)
+  have hQ' := HasDerivAt.fun_sum (u := Finset.univ) (fun j _ => (hin j).fun_mul (hout j))
+  have h := hQ'.sqrt (by simp only [Function.update_eq_self]; exact hQ)
+  refine h.congr_deriv ?_
+  simp only [Function.update_eq_self, zero_add]
+  have e : ∑ j, (V j i * (x j - y j)
+      + (∑ k, V j k * (x k - y k)) * (if j = i then 1 else 0))
+      = 2 * ∑ k, V i k * (x k - y k) := by
+    simp only [Finset.sum_add_distrib, mul_ite, mul_one, mul_zero, Finset.sum_ite_eq',
+      Finset.mem_univ, if_true]
+    rw [two_mul]
+    congr 1
+    apply Finset.sum_congr rfl
+    intro j _
+    rw [hsym j i]
+  rw [e, two_mul_div_two_mul]
+
+example : HasDerivAt
+    (fun t => (Grad.mahalanobisGrad realT 0 (List.ofFn (fun j => List.ofFn (!![2, 1; 1, 3] j)))
+      (List.ofFn (Function.update ![1, 2] 0 t)) (List.ofFn ![0, 0])).1)
+    ((Grad.mahalanobisGrad realT 0 (List.ofFn (fun j => List.ofFn (!![2, 1; 1, 3] j)))
+      (List.ofFn ![1, 2]) (List.ofFn ![0, 0])).2.getD (0 : Fin 2).val 0)
+    ((![1, 2] : Fin 2 → ℝ) 0) :=
+  mahalanobis_grad_hasDerivAt 2 (!![2, 1; 1, 3]) ![1, 2] ![0, 0] 0
+    (by intro j k; fin_cases j <;> fin_cases k <;> simp)
+    (by simp [Fin.sum_univ_two]; norm_num)
+
+theorem mahalanobis_grad_eps (eps : ℝ) (V : Fin n → Fin n → ℝ) (x y : Fin n → ℝ) (i : Fin n)
+    (hQ : 0 < ∑ j, (∑ k, V j k * (x k - y k)) * (x j - y j)) :
+    (Grad.mahalanobisGrad realT eps (List.ofFn (fun j => List.ofFn (V j)))
+        (List.ofFn x) (List.ofFn y)).2.getD i.val 0
+      = (Grad.mahalanobisGrad realT 0 (List.ofFn (fun j => List.ofFn (V j)))
+          (List.ofFn x) (List.ofFn y)).2.getD i.val 0
+        * ((Grad.mahalanobisGrad realT 0 (List.ofFn (fun j => List.ofFn (V j)))
+            (List.ofFn x) (List.ofFn y)).1
+          / (eps + (Grad.mahalanobisGrad realT 0 (List.ofFn (fun j => List.ofFn (V j)))
+            (List.ofFn x) (List.ofFn y)).1)) := by
+  rw [mahalanobisGrad_snd, mahalanobisGrad_snd, mahalanobisGrad_fst, getD_ofFn, getD_ofFn,
+    zero_add]
+  have hd := (Real.sqrt_pos.2 hQ).ne'
+  rw [div_mul_div_comm, mul_comm (∑ k, V i k * (x k - y k)), mul_div_mul_left _ _ hd]
+
+/-! ### minkowski and weighted minkowski (`p > 1`) -/
+
+theorem abs_mul_signPM (a : ℝ) : |a| * signPM a = a := by
+  unfold signPM
+  split_ifs with h
+  · rw [abs_of_neg h]; ring
+  · rw [abs_of_nonneg (not_lt.1 h)]; ring
+
+theorem rpow_alg (a p : ℝ) (hp : 1 < p) :
+    p * |a| ^ (p - 2) * a = p * (|a| ^ (p - 1) * signPM a) := by
+  by_cases ha : a = 0
+  · subst ha
+    have : p - 1 ≠ 0 := sub_ne_zero.2 hp.ne'
+    simp [Real.zero_rpow this]
+  · have hpos : 0 < |a| := abs_pos.2 ha
+    have e : |a| ^ (p - 1) = |a| ^ (p - 2) * |a| := by
+      rw [show p - 1 = (p - 2) + 1 by ring, Real.rpow_add hpos, Real.rpow_one]
+    rw [e]
+    have := abs_mul_signPM a
+    linear_combination (-(p * |a| ^ (p - 2))) * this
+
+/-- `|t - c| ^ p` is differentiable everywhere for `p > 1`. -/
+theorem hasDerivAt_abs_sub_rpow (a c p : ℝ) (hp : 1 < p) :
+    HasDerivAt (fun s => |s - c| ^ p) (p * (|a - c| ^ (p - 1) * signPM (a - c))) a := by
+  have h := (hasDerivAt_abs_rpow (a - c) hp).comp a ((hasDerivAt_id' a).sub_const c)
+  have h' : HasDerivAt (fun s => |s - c| ^ p) (p * |a - c| ^ (p - 2) * (a - c) * 1) a := h
+  exact h'.congr_deriv (by rw [mul_one]; exact rpow_alg _ _ hp)
+
+theorem sum_abs_rpow_pos {x y : Fin n → ℝ} (hne : x ≠ y) (p : ℝ) :
+    0 < ∑ j, |x j - y j| ^ p := by
+  obtain ⟨j, hj⟩ := Function.ne_iff.1 hne
+  exact Finset.sum_pos' (fun k _ => Real.rpow_nonneg (abs_nonneg _) p)
+    ⟨j, Finset.mem_univ j, Real.rpow_pos_of_pos (abs_pos.2 (sub_ne_zero.2 hj)) p⟩
+
+theorem minkowskiGrad_fst (p : ℝ) (x y : Fin n → ℝ) :
+    (Grad.minkowskiGrad realT p (List.ofFn x) (List.ofFn y)).1
+      = (∑ j, |x j - y j| ^ p) ^ (1 / p) := by
+  simp only [Grad.minkowskiGrad, diffs_ofFn, map_ofFn', sumL_ofFn, absV_eq_abs, realT]
+
+theorem minkowskiGrad_snd (p : ℝ) (x y : Fin n → ℝ) :
+    (Grad.minkowskiGrad realT p (List.ofFn x) (List.ofFn y)).2
+      = List.ofFn (fun j => |x j - y j| ^ (p - 1) * signPM (x j - y j)
+          * (if 0 < ∑ k, |x k - y k| ^ p then (∑ k, |x k - y k| ^ p) ^ (1 / p - 1) else 0)) := by
+  simp only [Grad.minkowskiGrad, diffs_ofFn, map_ofFn', sumL_ofFn, absV_eq_abs, realT]
+
+theorem minkowskiGrad_length (p : ℝ) (x y : Fin n → ℝ) :
+    (Grad.minkowskiGrad realT p (List.ofFn x) (List.ofFn y)).2.length = n := by
+  rw [minkowskiGrad_snd, List.length_ofFn]
+
+/-- the distance returned by `minkowskiGrad` is `Metrics.minkowski`. -/
+theorem minkowskiGrad_fst_eq_metric (p : ℝ) (x y : List ℝ) :
+    (Grad.minkowskiGrad realT p x y).1 = minkowski realT p x y := rfl
+
+/-- C14, minkowski with `p > 1`: differentiable wherever `x ≠ y`. -/
+theorem minkowski_grad_hasDerivAt (n : ℕ) (p : ℝ) (x y : Fin n → ℝ) (i : Fin n)
+    (hp : 1 < p) (hne : x ≠ y) :
+    HasDerivAt
+      (fun t => (Grad.minkowskiGrad realT p (List.ofFn (Function.update x i t)) (List.ofFn y)).1)
+      ((Grad.minkowskiGrad realT p (List.ofFn x) (List.ofFn y)).2.getD i.val 0) (x i) := by
+  simp_rw [minkowskiGrad_fst]
+  have hS := sum_abs_rpow_pos hne p
+  rw [minkowskiGrad_snd, getD_ofFn, if_pos hS]
+  have hs := hasDerivAt_sum_update (fun j s => |s - y j| ^ p) x i _
+    (hasDerivAt_abs_sub_rpow (x i) (y i) p hp)
+  have h := hs.rpow_const (p := 1 / p)
+    (Or.inl (by simp only [Function.update_eq_self]; exact hS.ne'))
+  refine h.congr_deriv ?_
+  simp only [Function.update_eq_self]
+  have hp0 : p ≠ 0 := by linarith
+  field_simp
+
+example : HasDerivAt
+    (fun t => (Grad.minkowskiGrad realT 3 (List.ofFn (Function.update ![1, 2] 0 t))
+      (List.ofFn ![0, 0])).1)
+    ((Grad.minkowskiGrad realT 3 (List.ofFn ![1, 2]) (List.ofFn ![0, 0])).2.getD (0 : Fin 2).val 0)
+    ((![1, 2] : Fin 2 → ℝ) 0) :=
+  minkowski_grad_hasDerivAt 2 3 ![1, 2] ![0, 0] 0 (by norm_num)
+    (by intro h; have := congrFun h 0; simp at this)
+
+theorem wminkowskiGrad_fst (w : Fin n → ℝ) (p : ℝ) (x y : Fin n → ℝ) :
+    (Grad.wminkowskiGrad realT (List.ofFn w) p (List.ofFn x) (List.ofFn y)).1
+      = (∑ j, w j * |x j - y j| ^ p) ^ (1 / p) := by
+  simp only [Grad.wminkowskiGrad, diffs_ofFn, zip_ofFn, map_ofFn', sumL_ofFn, absV_eq_abs, realT]
+
+theorem wminkowskiGrad_snd (w : Fin n → ℝ) (p : ℝ) (x y : Fin n → ℝ) :
+    (Grad.wminkowskiGrad realT (List.ofFn w) p (List.ofFn x) (List.ofFn y)).2
+      = List.ofFn (fun j => w j * |x j - y j| ^ (p - 1) * signPM (x j - y j)
+          * (if 0 < ∑ k, w k * |x k - y k| ^ p
+              then (∑ k, w k * |x k - y k| ^ p) ^ (1 / p - 1) else 0)) := by
+  simp only [Grad.wminkowskiGrad, diffs_ofFn, zip_ofFn, map_ofFn', sumL_ofFn, absV_eq_abs, realT]
+
+theorem wminkowskiGrad_length (w : Fin n → ℝ) (p : ℝ) (x y : Fin n → ℝ) :
+    (Grad.wminkowskiGrad realT (List.ofFn w) p (List.ofFn x) (List.ofFn y)).2.length = n := by
+  rw [wminkowskiGrad_snd, List.length_ofFn]
+
+theorem wminkowskiGrad_fst_eq_metric (w : List ℝ) (p : ℝ) (x y : List ℝ) :
+    (Grad.wminkowskiGrad realT w p x y).1 = wminkowski realT w p x y := rfl
+
+/-- C14, weighted minkowski with `p > 1`: differentiable wherever the weighted sum is positive
+    (for positive weights: wherever `x ≠ y`). -/
+theorem wminkowski_grad_hasDerivAt (n : ℕ) (w : Fin n → ℝ) (p : ℝ) (x y : Fin n → ℝ) (i : Fin n)
+    (hp : 1 < p) (hS : 0 < ∑ j, w j * |x j - y j| ^ p) :
+    HasDerivAt
+      (fun t => (Grad.wminkowskiGrad realT (List.ofFn w) p
+        (List.ofFn (Function.update x i t)) (List.ofFn y)).1)
+      ((Grad.wminkowskiGrad realT (List.ofFn w) p (List.ofFn x) (List.ofFn y)).2.getD i.val 0)
+      (x i) := by
+  simp_rw [wminkowskiGrad_fst]
+  rw [wminkowskiGrad_snd, getD_ofFn, if_pos hS]
+  have hs := hasDerivAt_sum_update (fun j s => w j * |s - y j| ^ p) x i _
+    ((hasDerivAt_abs_sub_rpow (x i) (y i) p hp).const_mul (w i))
+  have h := hs.rpow_const (p := 1 / p)
+    (Or.inl (by simp only [Function.update_eq_self]; exact hS.ne'))
+  refine h.congr_deriv ?_
+  simp only [Function.update_eq_self]
+  have hp0 : p ≠ 0 := by linarith
+  field_simp
+
+/-- positive weights and `x ≠ y` give the positivity hypothesis of
+    `wminkowski_grad_hasDerivAt`. -/
+theorem wsum_abs_rpow_pos {w x y : Fin n → ℝ} (hw : ∀ j, 0 < w j) (hne : x ≠ y) (p : ℝ) :
+    0 < ∑ j, w j * |x j - y j| ^ p := by
+  obtain ⟨j, hj⟩ := Function.ne_iff.1 hne
+  exact Finset.sum_pos'
+    (fun k _ => mul_nonneg (hw k).le (Real.rpow_nonneg (abs_nonneg _) p))
+    ⟨j, Finset.mem_univ j,
+      mul_pos (hw j) (Real.rpow_pos_of_pos (abs_pos.2 (sub_ne_zero.2 hj)) p)⟩
+
+example : HasDerivAt
+    (fun t => (Grad.wminkowskiGrad realT (List.ofFn ![2, 5]) 3
+      (List.ofFn (Function.update ![1, 2] 0 t)) (List.ofFn ![0, 0])).1)
+    ((Grad.wminkowskiGrad realT (List.ofFn ![2, 5]) 3 (List.ofFn ![1, 2])
+      (List.ofFn ![0, 0])).2.getD (0 : Fin 2).val 0)
+    ((![1, 2] : Fin 2 → ℝ) 0) :=
+  wminkowski_grad_hasDerivAt 2 ![2, 5] 3 ![1, 2] ![0, 0] 0 (by norm_num)
+    (wsum_abs_rpow_pos (by intro j; fin_cases j <;> simp)
+      (by intro h; have := congrFun h 0; simp at this) 3)
+
+/-! ### hyperboloid -/
+
+theorem hasDerivAt_sum_mul_self (x : Fin n → ℝ) (i : Fin n) :
+    HasDerivAt (fun t => ∑ j, Function.update x i t j * Function.update x i t j)
+      (2 * x i) (x i) := by
+  apply hasDerivAt_sum_update (fun j s => s * s)
+  exact ((hasDerivAt_id' (x i)).fun_mul (hasDerivAt_id' (x i))).congr_deriv (by ring)
+
+theorem hasDerivAt_sum_mul (x y : Fin n → ℝ) (i : Fin n) :
+    HasDerivAt (fun t => ∑ j, Function.update x i t j * y j) (y i) (x i) := by
+  apply hasDerivAt_sum_update (fun j s => s * y j)
+  exact ((hasDerivAt_id' (x i)).mul_const (y i)).congr_deriv (by ring)
+
+/-- the Lorentzian product `B = sqrt(1+|x|²) sqrt(1+|y|²) - <x,y>` of the lifted points. -/
+noncomputable def hypB (x y : Fin n → ℝ) : ℝ :=
+  Real.sqrt (1 + ∑ j, x j * x j) * Real.sqrt (1 + ∑ j, y j * y j) - ∑ j, x j * y j
+
+theorem hyperboloidGrad_fst (eps : ℝ) (x y : Fin n → ℝ) :
+    (Grad.hyperboloidGrad realT eps (List.ofFn x) (List.ofFn y)).1
+      = Real.arcosh (if hypB x y ≤ 1 then 1 + eps else hypB x y) := by
+  simp only [Grad.hyperboloidGrad, dot_ofFn, realT, hypB]
+  congr!
+
+theorem hyperboloidGrad_snd (eps : ℝ) (x y : Fin n → ℝ) :
+    (Grad.hyperboloidGrad realT eps (List.ofFn x) (List.ofFn y)).2
+      = List.ofFn (fun j =>
+          1 / (Real.sqrt ((if hypB x y ≤ 1 then 1 + eps else hypB x y) - 1)
+              * Real.sqrt ((if hypB x y ≤ 1 then 1 + eps else hypB x y) + 1))
+          * (x j * Real.sqrt (1 + ∑ k, y k * y k) / Real.sqrt (1 + ∑ k, x k * x k) - y j)) := by
+  simp only [Grad.hyperboloidGrad, dot_ofFn, zip_ofFn, map_ofFn', realT, hypB]
+  congr!
+
+theorem hyperboloidGrad_length (eps : ℝ) (x y : Fin n → ℝ) :
+    (Grad.hyperboloidGrad realT eps (List.ofFn x) (List.ofFn y)).2.length = n := by
+  rw [hyperboloidGrad_snd, List.length_ofFn]
+
+/-- distinct points have Lorentzian product `> 1` (Cauchy–Schwarz), so the clamp is inactive. -/
+theorem hypB_gt_one {x y : Fin n → ℝ} (hne : x ≠ y) : 1 < hypB x y := by
+  unfold hypB
+  have ha : 0 ≤ ∑ j, x j * x j := Finset.sum_nonneg (fun j _ => mul_self_nonneg _)
+  have hb : 0 ≤ ∑ j, y j * y j := Finset.sum_nonneg (fun j _ => mul_self_nonneg _)
+  have hcs : (∑ j, x j * y j) * (∑ j, x j * y j) ≤ (∑ j, x j * x j) * (∑ j, y j * y j) := by
+    have := Finset.sum_mul_sq_le_sq_mul_sq Finset.univ x y
+    simpa only [sq] using this
+  have hd : 0 < (∑ j, x j * x j) + (∑ j, y j * y j) - 2 * (∑ j, x j * y j) := by
+    have h := sumsq_pos hne
+    have e : ∑ j, (x j - y j) * (x j - y j)
+        = (∑ j, x j * x j) + (∑ j, y j * y j) - 2 * (∑ j, x j * y j) := by
+      rw [Finset.mul_sum, ← Finset.sum_add_distrib, ← Finset.sum_sub_distrib]
+      apply Finset.sum_congr rfl
+      intro j _
+      ring
+    linarith
+  rw [← Real.sqrt_mul (by linarith)]
+  have : 1 + ∑ j, x j * y j
+      < Real.sqrt ((1 + ∑ j, x j * x j) * (1 + ∑ j, y j * y j)) := by
+    by_cases h : 0 ≤ 1 + ∑ j, x j * y j
+    · rw [Real.lt_sqrt h]; nlinarith
+    · exact lt_of_lt_of_le (not_le.1 h) (Real.sqrt_nonneg _)
+  linarith
+
+theorem hasDerivAt_hypB (x y : Fin n → ℝ) (i : Fin n) :
+    HasDerivAt (fun t => hypB (Function.update x i t) y)
+      (2 * x i / (2 * Real.sqrt (1 + ∑ j, x j * x j)) * Real.sqrt (1 + ∑ j, y j * y j) - y i)
+      (x i) := by
+  unfold hypB
+  have h1 : 0 < 1 + ∑ j, x j * x j :=
+    add_pos_of_pos_of_nonneg one_pos (Finset.sum_nonneg (fun j _ => mul_self_nonneg _))
+  have hs := ((hasDerivAt_sum_mul_self x i).const_add 1).sqrt
+    (by simp only [Function.update_eq_self]; exact h1.ne')
+  have h := (hs.mul_const (Real.sqrt (1 + ∑ j, y j * y j))).fun_sub (hasDerivAt_sum_mul x y i)
+  refine h.congr_deriv ?_
+  simp only [Function.update_eq_self]
+
+/-- C14, hyperboloid: differentiable wherever `x ≠ y`. -/
+theorem hyperboloid_grad_hasDerivAt (n : ℕ) (x y : Fin n → ℝ) (i : Fin n) (hne : x ≠ y) :
+    HasDerivAt
+      (fun t => (Grad.hyperboloidGrad realT 0 (List.ofFn (Function.update x i t)) (List.ofFn y)).1)
+      ((Grad.hyperboloidGrad realT 0 (List.ofFn x) (List.ofFn y)).2.getD i.val 0) (x i) := by
+  have hB := hypB_gt_one hne
+  have hB0 := hasDerivAt_hypB x y i
+  have hev : ∀ᶠ t in nhds (x i),
+      (Grad.hyperboloidGrad realT 0 (List.ofFn (Function.update x i t)) (List.ofFn y)).1
+        = Real.arcosh (hypB (Function.update x i t) y) := by
+    have : ∀ᶠ t in nhds (x i), 1 < hypB (Function.update x i t) y :=
+      ContinuousAt.eventually_lt continuousAt_const hB0.continuousAt
+        (by simp only [Function.update_eq_self]; exact hB)
+    filter_upwards [this] with t ht
+    rw [hyperboloidGrad_fst, if_neg (not_le.2 ht)]
+  refine HasDerivAt.congr_of_eventuallyEq ?_ hev
+  have hmem : hypB (Function.update x i (x i)) y ∈ Set.Ioi (1 : ℝ) := by
+    simp only [Function.update_eq_self]; exact hB
+  have h := (Real.hasDerivAt_arcosh hmem).comp (x i) hB0
+  have h' : HasDerivAt (fun t => Real.arcosh (hypB (Function.update x i t) y)) _ (x i) := h
+  refine h'.congr_deriv ?_
+  rw [hyperboloidGrad_snd, getD_ofFn, if_neg (not_le.2 hB)]
+  simp only [Function.update_eq_self]
+  have e : Real.sqrt (hypB x y ^ 2 - 1)
+      = Real.sqrt (hypB x y - 1) * Real.sqrt (hypB x y + 1) := by
+    rw [← Real.sqrt_mul (by linarith)]; congr 1; ring
+  rw [e, two_mul_div_two_mul, one_div, div_mul_eq_mul_div]
+
+example : HasDerivAt
+    (fun t => (Grad.hyperboloidGrad realT 0 (List.ofFn (Function.update ![1, 2] 0 t))
+      (List.ofFn ![0, 0])).1)
+    ((Grad.hyperboloidGrad realT 0 (List.ofFn ![1, 2])
+      (List.ofFn ![0, 0])).2.getD (0 : Fin 2).val 0)
+    ((![1, 2] : Fin 2 → ℝ) 0) :=
+  hyperboloid_grad_hasDerivAt 2 ![1, 2] ![0, 0] 0
+    (by intro h; have := congrFun h 0; simp at this)
+
+/-- for distinct points the regularising constant is never used. -/
+theorem hyperboloid_grad_eps (eps : ℝ) (x y : Fin n → ℝ) (hne : x ≠ y) :
+    Grad.hyperboloidGrad realT eps (List.ofFn x) (List.ofFn y)
+      = Grad.hyperboloidGrad realT 0 (List.ofFn x) (List.ofFn y) := by
+  have hB := hypB_gt_one hne
+  apply Prod.ext
+  · rw [hyperboloidGrad_fst, hyperboloidGrad_fst, if_neg (not_le.2 hB), if_neg (not_le.2 hB)]
+  · rw [hyperboloidGrad_snd, hyperboloidGrad_snd]
+    simp only [if_neg (not_le.2 hB)]
+
+/-! ### symmetric KL -/
+
+/-- normalising mass `∑ (x k + z)`. -/
+noncomputable def klX (z : ℝ) (x : Fin n → ℝ) : ℝ := ∑ k, (x k + z)
+
+/-- smoothed, normalised coordinate. -/
+noncomputable def klP (z : ℝ) (x : Fin n → ℝ) (j : Fin n) : ℝ := (x j + z) / klX z x
+
+/-- partial derivative of the divergence in the normalised coordinate `P j`. -/
+noncomputable def klG (z : ℝ) (x y : Fin n → ℝ) (j : Fin n) : ℝ :=
+  (Real.log (klP z x j / klP z y j) - klP z y j / klP z x j + 1) / 2
+
+theorem symmetricKlGrad_fst (z : ℝ) (x y : Fin n → ℝ) :
+    (Grad.symmetricKlGrad realT z (List.ofFn x) (List.ofFn y)).1
+      = (∑ j, klP z x j * Real.log (klP z x j / klP z y j)
+          + ∑ j, klP z y j * Real.log (klP z y j / klP z x j)) / 2 := by
+  simp only [Grad.symmetricKlGrad, symmetricKl, sumL_ofFn, map_ofFn', zip_ofFn, realT, two,
+    Nat.cast_ofNat, klP, klX]
+
+theorem symmetricKlGrad_fst_eq_metric (z : ℝ) (x y : List ℝ) :
+    (Grad.symmetricKlGrad realT z x y).1 = symmetricKl realT z x y := rfl
+
+theorem symmetricKlGrad_snd (z : ℝ) (x y : Fin n → ℝ) :
+    (Grad.symmetricKlGrad realT z (List.ofFn x) (List.ofFn y)).2
+      = List.ofFn (fun j => (klG z x y j - ∑ k, klP z x k * klG z x y k) / klX z x) := by
+  simp only [Grad.symmetricKlGrad, sumL_ofFn, map_ofFn', zip_ofFn, realT, two,
+    Nat.cast_ofNat, klG, klP, klX]
+
+theorem symmetricKlGrad_length (z : ℝ) (x y : Fin n → ℝ) :
+    (Grad.symmetricKlGrad realT z (List.ofFn x) (List.ofFn y)).2.length = n := by
+  rw [symmetricKlGrad_snd, List.length_ofFn]
+
+/-- C14, symmetric KL (as repaired): differentiable wherever all smoothed coordinates and both
+    masses are non-zero (in practice: positive). -/
+theorem symmetricKl_grad_hasDerivAt' (n : ℕ) (z : ℝ) (x y : Fin n → ℝ) (i : Fin n)
+    (hX : klX z x ≠ 0) (hY : klX z y ≠ 0) (hx : ∀ j, x j + z ≠ 0) (hy : ∀ j, y j + z ≠ 0) :
+    HasDerivAt
+      (fun t => (Grad.symmetricKlGrad realT z (List.ofFn (Function.update x i t)) (List.ofFn y)).1)
+      ((Grad.symmetricKlGrad realT z (List.ofFn x) (List.ofFn y)).2.getD i.val 0) (x i) := by
+  simp_rw [symmetricKlGrad_fst]
+  rw [symmetricKlGrad_snd, getD_ofFn]
+  have hPne : ∀ j, klP z x j ≠ 0 := fun j => div_ne_zero (hx j) hX
+  have hQne : ∀ j, klP z y j ≠ 0 := fun j => div_ne_zero (hy j) hY
+  have hXd : HasDerivAt (fun t => klX z (Function.update x i t)) 1 (x i) := by
+    unfold klX
+    exact hasDerivAt_sum_update (fun _ s => s + z) x i 1 ((hasDerivAt_id' _).add_const z)
+  have hP := fun j => ((hasDerivAt_update_apply x i j).add_const z).fun_div hXd
+    (by simp only [Function.update_eq_self]; exact hX)
+  have hP' : ∀ j, HasDerivAt (fun t => klP z (Function.update x i t) j) _ (x i) := hP
+  have hA := fun j => (hP' j).fun_mul (((hP' j).div_const (klP z y j)).log
+    (by simp only [Function.update_eq_self]; exact div_ne_zero (hPne j) (hQne j)))
+  have hB := fun j => (((hasDerivAt_const (x i) (klP z y j)).fun_div (hP' j)
+    (by simp only [Function.update_eq_self]; exact hPne j)).log
+    (by simp only [Function.update_eq_self]; exact div_ne_zero (hQne j) (hPne j))).const_mul
+      (klP z y j)
+  have hSA := HasDerivAt.fun_sum (u := Finset.univ) (fun j _ => hA j)
+  have hSB := HasDerivAt.fun_sum (u := Finset.univ) (fun j _ => hB j)
+  have h := (hSA.fun_add hSB).div_const 2
+  refine h.congr_deriv ?_
+  simp only [Function.update_eq_self]
+  have hR : (klG z x y i - ∑ k, klP z x k * klG z x y k) / klX z x
+      = (∑ j, 2 / klX z x * ((if j = i then 1 else 0) * klG z x y j
+          - klP z x j * klG z x y j)) / 2 := by
+    rw [← Finset.mul_sum, Finset.sum_sub_distrib]
+    simp only [ite_mul, one_mul, zero_mul, Finset.sum_ite_eq', Finset.mem_univ, if_true]
+    field_simp
+  rw [hR, ← Finset.sum_add_distrib]
+  congr 1
+  apply Finset.sum_congr rfl
+  intro j _
+  have e : x j + z = klP z x j * klX z x := by unfold klP; field_simp
+  have h1 := hPne j
+  have h2 := hQne j
+  rw [e]
+  unfold klG
+  generalize Real.log (klP z x j / klP z y j) = L
+  generalize (if j = i then (1 : ℝ) else 0) = δ
+  generalize klP z x j = P at *
+  generalize klP z y j = Q at *
+  generalize klX z x = X at *
+  field_simp
+  ring
+
+/-- C14, symmetric KL on its natural domain (all smoothed coordinates positive). -/
+theorem symmetricKl_grad_hasDerivAt (n : ℕ) (z : ℝ) (x y : Fin n → ℝ) (i : Fin n)
+    (hx : ∀ j, 0 < x j + z) (hy : ∀ j, 0 < y j + z) :
+    HasDerivAt
+      (fun t => (Grad.symmetricKlGrad realT z (List.ofFn (Function.update x i t)) (List.ofFn y)).1)
+      ((Grad.symmetricKlGrad realT z (List.ofFn x) (List.ofFn y)).2.getD i.val 0) (x i) := by
+  have hX : 0 < klX z x :=
+    Finset.sum_pos' (fun j _ => (hx j).le) ⟨i, Finset.mem_univ i, hx i⟩
+  have hY : 0 < klX z y :=
+    Finset.sum_pos' (fun j _ => (hy j).le) ⟨i, Finset.mem_univ i, hy i⟩
+  exact symmetricKl_grad_hasDerivAt' n z x y i hX.ne' hY.ne'
+    (fun j => (hx j).ne') (fun j => (hy j).ne')
+
+example : HasDerivAt
+    (fun t => (Grad.symmetricKlGrad realT 1 (List.ofFn (Function.update ![1, 2] 0 t))
+      (List.ofFn ![3, 0])).1)
+    ((Grad.symmetricKlGrad realT 1 (List.ofFn ![1, 2])
+      (List.ofFn ![3, 0])).2.getD (0 : Fin 2).val 0)
+    ((![1, 2] : Fin 2 → ℝ) 0) :=
+  symmetricKl_grad_hasDerivAt 2 1 ![1, 2] ![3, 0] 0
+    (by intro j; fin_cases j <;> simp <;> norm_num)
+    (by intro j; fin_cases j <;> simp <;> norm_num)
+
+/-! ### further relations -/
+
+/-- seuclidean: the regularised gradient is the true one shrunk by `d σ_i / (eps + d σ_i)`. -/
+theorem seuclidean_grad_eps (eps : ℝ) (sigma x y : Fin n → ℝ) (i : Fin n)
+    (hs : sigma i ≠ 0) (hS : 0 < ∑ j, (x j - y j) * (x j - y j) / sigma j) :
+    (Grad.seuclideanGrad realT eps (List.ofFn sigma) (List.ofFn x) (List.ofFn y)).2.getD i.val 0
+      = (Grad.seuclideanGrad realT 0 (List.ofFn sigma) (List.ofFn x) (List.ofFn y)).2.getD i.val 0
+        * ((Grad.seuclideanGrad realT 0 (List.ofFn sigma) (List.ofFn x) (List.ofFn y)).1 * sigma i
+          / (eps + (Grad.seuclideanGrad realT 0 (List.ofFn sigma) (List.ofFn x) (List.ofFn y)).1
+              * sigma i)) := by
+  rw [seuclideanGrad_snd, seuclideanGrad_snd, seuclideanGrad_fst, getD_ofFn, getD_ofFn, zero_add]
+  have hd : Real.sqrt (∑ j, (x j - y j) * (x j - y j) / sigma j) * sigma i ≠ 0 :=
+    mul_ne_zero (Real.sqrt_pos.2 hS).ne' hs
+  rw [div_mul_div_comm, mul_comm (x i - y i), mul_div_mul_left _ _ hd]
+
+/-! ### the returned distance is the metric of `Umap.Metrics` (all list inputs) -/
+
+theorem euclideanGrad_fst_eq_metric (eps : ℝ) (x y : List ℝ) :
+    (Grad.euclideanGrad realT eps x y).1 = euclidean realT x y := rfl
+
+theorem seuclideanGrad_fst_eq_metric (eps : ℝ) (sigma x y : List ℝ) :
+    (Grad.seuclideanGrad realT eps sigma x y).1 = seuclidean realT sigma x y := rfl
+
+theorem manhattanGrad_fst_eq_metric (x y : List ℝ) :
+    (Grad.manhattanGrad x y).1 = manhattan x y := rfl
+
+theorem canberraGrad_fst_eq_metric (x y : List ℝ) :
+    (Grad.canberraGrad x y).1 = canberra x y := rfl
+
+theorem brayCurtisGrad_fst_eq_metric (x y : List ℝ) :
+    (Grad.brayCurtisGrad x y).1 = brayCurtis x y := by
+  simp only [Grad.brayCurtisGrad, brayCurtis]
+  split_ifs <;> rfl
+
+theorem cosineGrad_fst_eq_metric (x y : List ℝ) :
+    (Grad.cosineGrad realT x y).1 = cosine realT x y := by
+  simp only [Grad.cosineGrad, cosine]
+  split_ifs <;> rfl
+
+theorem correlationGrad_fst_eq_metric (x y : List ℝ) :
+    (Grad.correlationGrad realT x y).1 = correlation realT x y := by
+  simp only [Grad.correlationGrad, correlation]
+  split_ifs <;> rfl
+
+theorem hellingerGrad_fst_eq_metric (x y : List ℝ) :
+    (Grad.hellingerGrad realT x y).1 = hellinger realT x y := by
+  simp only [Grad.hellingerGrad, hellinger]
+  split_ifs <;> rfl
+
+theorem amFold_eq_maxL (l : List ℝ) (acc : ℕ × ℕ × ℝ) :
+    (l.foldl amStep acc).2.2 = maxL acc.2.2 (l.map absV) := by
+  induction l generalizing acc with
+  | nil => rfl
+  | cons v l ih =>
+    simp only [List.foldl_cons, List.map_cons, maxL]
+    rw [ih]
+    unfold maxL amStep
+    split_ifs <;> rfl
+
+theorem chebyshevGrad_fst_eq_metric (x y : List ℝ) :
+    (Grad.chebyshevGrad x y).1 = chebyshev x y := by
+  simp only [Grad.chebyshevGrad, chebyshev, argmaxAbs_eq]
+  exact amFold_eq_maxL _ _
+
+/-! ### a finding: `correlation_grad` at an exactly zero centred dot product -/
+
+/-- when the centred dot product is exactly `0` the code returns a zero gradient … -/
+theorem correlationGrad_snd_of_cdot_zero (x y : Fin n → ℝ) (hdp : cdot x y = 0) :
+    (Grad.correlationGrad realT (List.ofFn x) (List.ofFn y)).2
+      = List.ofFn (fun _ : Fin n => (0 : ℝ)) := by
+  have e1 := correlation_core x y
+  simp only [mean] at e1
+  simp only [Grad.correlationGrad, mean, e1, hdp, Bool.and_eq_true, eqV_iff]
+  split_ifs <;> exact map_ofFn' _ _
+
+/-- … although the distance is differentiable there with a non-zero derivative (for
+    non-constant `x`, `y` and `y i ≠ mean y`): the returned entry is not the derivative. -/
+theorem correlation_grad_ne_deriv_of_cdot_zero (x y : Fin n → ℝ) (i : Fin n)
+    (hx : cdot x x ≠ 0) (hy : cdot y y ≠ 0) (hdp : cdot x y = 0) (hi : y i ≠ cmean y) :
+    ∃ d : ℝ, HasDerivAt
+      (fun t => (Grad.correlationGrad realT (List.ofFn (Function.update x i t)) (List.ofFn y)).1)
+      d (x i) ∧ d ≠ (Grad.correlationGrad realT (List.ofFn x) (List.ofFn y)).2.getD i.val 0 := by
+  refine ⟨_, correlation_hasDerivAt_true x y i hx hy, ?_⟩
+  rw [correlationGrad_snd_of_cdot_zero x y hdp, getD_ofFn, hdp]
+  have hnx : 0 < cdot x x :=
+    lt_of_le_of_ne (Finset.sum_nonneg (fun j _ => mul_self_nonneg _)) (Ne.symm hx)
+  have hny : 0 < cdot y y :=
+    lt_of_le_of_ne (Finset.sum_nonneg (fun j _ => mul_self_nonneg _)) (Ne.symm hy)
+  have hs : Real.sqrt (cdot x x * cdot y y) ≠ 0 := (Real.sqrt_pos.2 (mul_pos hnx hny)).ne'
+  apply div_ne_zero _ (mul_ne_zero hx hs)
+  rw [mul_zero, zero_sub, neg_ne_zero]
+  exact mul_ne_zero (sub_ne_zero.2 hi) hx
+
+/-- non-vacuity: `x = (1,2,3,6)`, `y = (1,1,0,1)` have centred dot product `0`. -/
+example : ∃ d : ℝ, HasDerivAt
+      (fun t => (Grad.correlationGrad realT (List.ofFn (Function.update ![1, 2, 3, 6] 0 t))
+        (List.ofFn ![1, 1, 0, 1])).1) d ((![1, 2, 3, 6] : Fin 4 → ℝ) 0) ∧
+      d ≠ (Grad.correlationGrad realT (List.ofFn ![1, 2, 3, 6])
+        (List.ofFn ![1, 1, 0, 1])).2.getD (0 : Fin 4).val 0 :=
+  correlation_grad_ne_deriv_of_cdot_zero ![1, 2, 3, 6] ![1, 1, 0, 1] 0
+    (by simp [cdot, cmean, Fin.sum_univ_four]; norm_num)
+    (by simp [cdot, cmean, Fin.sum_univ_four]; norm_num)
+    (by simp [cdot, cmean, Fin.sum_univ_four]; norm_num)
+    (by simp [cmean, Fin.sum_univ_four]; norm_num)
+
+end C14
+end Umap
